@@ -12,7 +12,7 @@ from .explorer import EX, Unsupported, explore_iter
 
 PID = "C12"
 _G = {}
-KINDS = ("valid", "valid2", "fast_first", "unknown_pgn", "unsupported", "malformed", "rejected", "blank")
+KINDS = ("valid", "valid2", "valid_t", "fast_first", "unknown_pgn", "unsupported", "malformed", "rejected", "blank")
 CBK = ("ok", "raises", "slow")
 
 
@@ -24,6 +24,10 @@ def packet(N, client, kind, src):
 
     def wrap(m_or_frame, pgn=None):
         return m_or_frame
+    if kind == "valid_t":
+        # Yacht Devices RAW: a line with the other direction marker (the gateway's echo of a transmitted frame) is a frame too
+        pk = packet(N, client, "valid", src)
+        return pk.replace(b" R ", b" T ", 1) if client == "yacht" else pk
     if kind in ("valid", "valid2"):
         m = dec._decode(127250 if kind == "valid" else 127251, 2, src, 255, ts,
                         (bytes([src, 0x10, 0x27, 0xFF, 0x7F, 0xFF, 0x7F, 0xFD]) if kind == "valid" else bytes([src, 0x10, 0x27, 0, 0, 0xFF, 0xFF, 0xFF]))[::-1], b"")
